@@ -8,6 +8,8 @@
     for every conversion function.
   * Header names are ASCII (http.client rejects others), so `str.lower()` is `String.toLower`.
   * `putheader` appends to the list of emitted header lines.
+  * The `User-Agent` of the configuration: `Config.__init__` (only `None` is replaced by the default), `Config.copy`
+    (through the constructor again), attribute stores, `TransportMixIn.__init__` (verbatim) — jsonrpclib/config.py.
 -/
 import JRV.Model.Json
 
@@ -56,6 +58,62 @@ def allItems (extra : HDict) (stack : List HDict) : HDict := extra ++ stack.flat
     key lower-cases to `n`. -/
 def lastDef (items : HDict) (n : String) : Option PyVal :=
   (items.reverse.find? fun kv => kv.1.toLower == n).map (·.2)
+
+/- ---------- the configured User-Agent: jsonrpclib/config.py `Config.__init__` / `Config.copy`,
+     `TransportMixIn.__init__` (jsonrpclib/jsonrpc.py) ---------- -/
+
+/-- `Config.__init__`: `if user_agent is None: user_agent = "jsonrpclib/… (Python …)"; self.user_agent = user_agent`.
+    `dflt` is that constant of the process.  ONLY `None` is replaced: an empty string, `0`, `False` … are
+    configured values and are stored as they are. -/
+def configInit (dflt : PyVal) (arg : PyVal) : PyVal :=
+  match arg with
+  | .none => dflt
+  | v => v
+
+/-- What a program does with its configuration object between `Config(user_agent=arg)` and the moment it hands it to
+    a transport or a `ServerProxy`. -/
+inductive CfgStep where
+  | copy                       -- `cfg = cfg.copy()`
+  | store (v : PyVal)          -- `cfg.user_agent = v`
+  deriving Repr
+
+/-- One step on the `user_agent` attribute.  `copy()` is `Config(self.version, self.content_type, self.user_agent, …)`:
+    the attribute goes through the constructor (and its `is None` test) again; an attribute store is verbatim. -/
+def cfgStep (dflt : PyVal) (attr : PyVal) : CfgStep → PyVal
+  | .copy => configInit dflt attr
+  | .store v => v
+
+/-- The `user_agent` attribute of the configuration object the program ends up with. -/
+def configAgent (dflt arg : PyVal) (steps : List CfgStep) : PyVal :=
+  steps.foldl (cfgStep dflt) (configInit dflt arg)
+
+/-- `TransportMixIn.__init__(self, config, …)`: `self.user_agent = config.user_agent` (verbatim); `Transport`,
+    `SafeTransport` and `UnixTransport` all start with this call, and `ServerProxy(uri, config=cfg)` builds each of
+    them with `config=cfg`. -/
+def transportAgent (cfgAgent : PyVal) : PyVal := cfgAgent
+
+/-- `send_content` of a transport built from a configuration whose `user_agent` attribute is `cfgAgent`.
+    The model describes string user agents (what `putheader` is meant to receive); any other object is handed to
+    `putheader` as it is, which the model declines to describe (`none`, reported as `Unmodelled`). -/
+def sendContentCfg (strOf : PyVal → String) (contentType : String) (bodyLen : Nat) (cfgAgent : PyVal)
+    (extra : HDict) (stack : List HDict) : Option (List (String × String)) :=
+  match transportAgent cfgAgent with
+  | .str s => some (sendContent strOf contentType bodyLen s extra stack)
+  | _ => none
+
+/-- Meaning of the words with which the extractor (tools/extractors/headers2.py) describes what a piece of code does
+    with the user agent it is given, `dflt` being what the code substitutes: `"verbatim"` — nothing; `"is-none"` —
+    replaced exactly when it is `None`; `"falsy"` — replaced whenever it is falsy.  The companion theorems
+    (JRV/Properties/C18Gen.lean) show that the word read from the source denotes the function the model uses. -/
+def applyRule (rule : String) (dflt v : PyVal) : Option PyVal :=
+  if rule = "verbatim" then some v
+  else if rule = "is-none" then some (match v with | .none => dflt | x => x)
+  else if rule = "falsy" then some (if v.truthy then v else dflt)
+  else none
+
+/-- The transports of jsonrpclib/jsonrpc.py (sorted); each must hand its `config` to `TransportMixIn.__init__`, and
+    `ServerProxy.__init__` must build each with its own `config`, for `transportAgent` to describe them. -/
+def transports : List String := ["SafeTransport", "Transport", "UnixTransport"]
 
 /- ---------- header stack and `_additional_headers` blocks ---------- -/
 
